@@ -10,16 +10,13 @@ quantile-division code (process_val_weights, RepartitionQuantiles, _calculate_di
 recorded and decided by TLC the same way."""
 from __future__ import annotations
 
-import inspect
-import textwrap
-
 import numpy as np
 import pandas as pd
 
 from ..core import MachineryError
-from ..divisions import Verdicts as _Verdicts
-from ..frameobs import plain, rank_map, time_limit, to_rank
-from ..frames import dd, from_parts, is_shim_error, partitions_of, split_rows
+from ..divisions import Verdicts as _Verdicts, mutate, patched_attr as patched
+from ..frameobs import partitions_of, plain, rank_map, time_limit, to_rank
+from ..frames import dd, from_parts, is_shim_error, split_rows
 from ..par import pmap
 
 META = {
@@ -29,7 +26,7 @@ META = {
                  "by TLC on the bounded space; every enumerated case replayed into the real function and the recorded calls "
                  "(also of the quantile-division code) decided by TLC",
     "level_text": "Small-scope exhaustive: every non-decreasing sequence of length <= 7 over 4 labels (thorough: <= 11 over 5) x "
-                  "npartitions/chunksize 1..9 (1..12), for int/float/str/datetime indexes and through from_pandas; TLC decides the "
+                  "npartitions/chunksize 1..9 (1..12), for int/float/str/datetime indexes (thorough: three of the six input kinds per case, rotating) and through from_pandas; TLC decides the "
                   "contract (locations 0..len strictly increasing, division = label at location, equal labels never split, exact "
                   "npartitions when enough distinct labels) on every recorded call, and proves the same for a PlusCal transcription of "
                   "the loop. Larger random sequences and quantile divisions (non-decreasing, first = min, last = max) are recorded "
@@ -220,7 +217,7 @@ def decide(ctx, recs, label):
 
 def sdl_records(items):
     """items: (seq, mode, k, kind, via) -> records (op = sdl); skips are returned separately."""
-    obs = pmap(_sdl_work, items)
+    obs = pmap(_sdl_work, items, chunk=64 if len(items) < 20000 else 1024)
     recs, skips = [], []
     for (seq, mode, k, kind, via), o in zip(items, obs):
         if "skip" in o:
@@ -282,14 +279,17 @@ def run(ctx):
     cases = enumerate_cases(ctx, maxlen, alphabet, maxk)
     ctx.extra["cases_enumerated_by_tlc"] = len(cases)
     # spec -> code: every case x every index dtype through the real function
-    items = [(c["c"]["seq"], c["c"]["mode"], c["c"]["k"], kind, "direct") for c in cases for kind in KINDS]
+    # (quick: all six dtypes per case; thorough: three per case, rotating, so every dtype meets a sixth of the space twice)
+    nk = ctx.pick(len(KINDS), 3)
+    items = [(c["c"]["seq"], c["c"]["mode"], c["c"]["k"], KINDS[(i + j) % len(KINDS)], "direct")
+             for i, c in enumerate(cases) for j in range(nk)]
     # ... a sample of them observed through from_pandas
     cands = [c for c in cases if len(c["c"]["seq"]) >= 2]
     for c in rng.sample(cands, min(ctx.pick(700, 8000), len(cands))):
         items.append((c["c"]["seq"], c["c"]["mode"], c["c"]["k"],
                       rng.choice(["int-index", "float-index", "str-index", "datetime-index"]), "from_pandas"))
     # code -> spec: larger random sorted sequences
-    for _ in range(ctx.pick(4000, 60000)):
+    for _ in range(ctx.pick(4000, 40000)):
         n = rng.randint(maxlen + 1, 60)
         a = rng.randint(1, min(n, 14))
         seq = sorted(rng.randrange(a) for _ in range(n))
@@ -297,8 +297,8 @@ def run(ctx):
     # is the proved transcription (still) the running code?
     expected = {(tuple(c["c"]["seq"]), c["c"]["mode"], c["c"]["k"]): c["e"] for c in cases}
     pool, mism, shown = Verdicts(), 0, []
-    for lo in range(0, len(items), 50000):
-        recs, skips = sdl_records(items[lo:lo + 50000])
+    for lo in range(0, len(items), 120000):
+        recs, skips = sdl_records(items[lo:lo + 120000])
         for s in skips:
             ctx.skip(s)
         for r in recs:
@@ -316,7 +316,7 @@ def run(ctx):
         print("NOTE C45: the PlusCal transcription differs from the running code on %d calls (transcription stale; "
               "the contract verdicts do not depend on it)" % mism)
     # quantile divisions
-    qrecs, qskips = quantile_records(quantile_cases(rng, *ctx.pick((1200, 400, 3000), (12000, 4000, 40000))))
+    qrecs, qskips = quantile_records(quantile_cases(rng, *ctx.pick((1200, 400, 3000), (9000, 3000, 30000))))
     for r in qrecs:
         ctx.count(("q", r["case"]), len(set(r["data"])) >= 2)
     for s in qskips:
@@ -358,55 +358,33 @@ def replay(ctx, obj):
 
 
 # ----------------------------------------------------------------------------- selftest
-def mutate(fn, old, new):
-    src = textwrap.dedent(inspect.getsource(fn))
-    if src.count(old) != 1:
-        raise MachineryError("mutation site %r not found exactly once in %s" % (old, fn.__name__))
-    g = dict(fn.__globals__)
-    exec(compile(src.replace(old, new), "<mutant of %s>" % fn.__name__, "exec"), g)   # noqa: S102
-    return g[fn.__name__]
-
-
-class patched:
-    def __init__(self, targets, name, value):
-        self.targets, self.name, self.value = targets, name, value
-
-    def __enter__(self):
-        self.saved = [getattr(t, self.name) for t in self.targets]
-        for t in self.targets:
-            setattr(t, self.name, self.value)
-
-    def __exit__(self, *a):
-        for t, v in zip(self.targets, self.saved):
-            setattr(t, self.name, v)
-
-
 def selftest(ctx):
+    """Binding demonstration with ONE TLC run: the same small case set (every sorted sequence <= 6 over 3
+    labels x npartitions/chunksize 1..7, a from_pandas sample, quantile cases) is executed on the unmutated
+    code and under each in-memory mutant; all records (tagged) plus corrupted copies of a genuine record
+    are decided together."""
+    import itertools
     dd()
     import dask.dataframe.io.io as ioio
     import dask.dataframe.dask_expr.io.io as exio
     from dask.dataframe import partitionquantiles as pq
     from dask.dataframe.dask_expr import _quantiles as exq
-    ok = True
-    cases = enumerate_cases(ctx, 6, 3, 7, label="selftest-cases")
-    items = [(c["c"]["seq"], c["c"]["mode"], c["c"]["k"], KINDS[i % len(KINDS)], "direct") for i, c in enumerate(cases)]
-    fp_items = [(c["c"]["seq"], c["c"]["mode"], c["c"]["k"], "int-index", "from_pandas") for c in cases[::9]][:150]
-    qcases = quantile_cases(ctx.rng, 120, 60, 400)
+    triples = [(list(seq), mode, k) for n in range(1, 7) for seq in itertools.combinations_with_replacement(range(3), n)
+               for mode in ("n", "c") for k in range(1, 8)]
+    items = [(seq, mode, k, KINDS[i % len(KINDS)], "direct") for i, (seq, mode, k) in enumerate(triples)]
+    fp_items = [(seq, mode, k, "int-index", "from_pandas") for seq, mode, k in triples[::9] if len(seq) >= 2][:120]
+    qcases = quantile_cases(ctx.rng, 100, 50, 400)
+    tagged = []
 
-    def n_bad(which):
-        out = {}
+    def collect(tag, which):
         if "sdl" in which:
-            out["sdl"] = len(decide(ctx, sdl_records(items)[0], "selftest"))
+            tagged.extend(dict(r, tag=tag, part="sdl") for r in sdl_records(items)[0])
         if "fp" in which:
-            out["fp"] = len(decide(ctx, sdl_records(fp_items)[0], "selftest"))
+            tagged.extend(dict(r, tag=tag, part="fp") for r in sdl_records(fp_items)[0])
         if "q" in which:
-            out["q"] = len(decide(ctx, quantile_records(qcases)[0], "selftest"))
-        return out
+            tagged.extend(dict(r, tag=tag, part="q") for r in quantile_records(qcases)[0])
 
-    base = n_bad({"sdl", "fp", "q"})
-    good = all(v == 0 for v in base.values())
-    print("selftest C45 baseline (unmutated code): rejected %s -> %s" % (base, "ok" if good else "UNEXPECTED"))
-    ok &= good
+    collect("baseline", {"sdl", "fp", "q"})
     sdl = ioio.sorted_division_locations
     mutants = [
         ("sdl: position of a duplicated label not moved to its first occurrence (pos = i)",
@@ -426,30 +404,41 @@ def selftest(ctx):
     ]
     for name, targets, attr, mut, which in mutants:
         with patched(targets, attr, mut):
-            got = n_bad(which)
-        det = sum(got.values()) > 0
-        print("selftest C45 mutant [%s]: rejected records %s -> %s" % (name, got, "DETECTED" if det else "MISSED"))
-        ok &= det
+            collect(name, which)
     # (ii) corrupted / truncated records must be rejected by the trace specification
-    recs, _ = sdl_records([([0, 0, 1, 1, 2, 3], "n", 3, "int-index", "direct")])
-    r0 = recs[0]
+    r0 = sdl_records([([0, 0, 1, 1, 2, 3], "n", 3, "int-index", "direct")])[0][0]
     variants = {
+        "genuine": r0,
         "location moved into a run of equal labels": dict(r0, locs=[r0["locs"][0], r0["locs"][1] + 1] + r0["locs"][2:]),
         "last division dropped": dict(r0, divs=r0["divs"][:-1]),
         "division swapped for another label": dict(r0, divs=[r0["divs"][0], r0["divs"][1] + 1] + r0["divs"][2:]),
         "one partition dropped (npartitions not met)": dict(r0, divs=r0["divs"][:1] + r0["divs"][2:], locs=r0["locs"][:1] + r0["locs"][2:]),
+        "quantile divisions out of order": {"op": "quantiles", "layer": "pvw", "raised": "", "data": [0, 1, 2, 3], "divs": [0, 2, 1, 3]},
     }
-    base_ok = not decide(ctx, [r0], "selftest")
-    print("selftest C45 trace: genuine record accepted -> %s" % ("ok" if base_ok else "UNEXPECTED"))
-    ok &= base_ok
-    for name, rec in variants.items():
-        bad = decide(ctx, [rec], "selftest")
-        print("selftest C45 corrupted record [%s]: %s" % (name, "REJECTED %s" % bad[0][1] if bad else "ACCEPTED (missed)"))
-        ok &= bool(bad)
-    qrec = {"op": "quantiles", "layer": "pvw", "raised": "", "data": [0, 1, 2, 3], "divs": [0, 2, 1, 3]}
-    bad = decide(ctx, [qrec], "selftest")
-    print("selftest C45 corrupted record [quantile divisions out of order]: %s" % ("REJECTED %s" % bad[0][1] if bad else "ACCEPTED (missed)"))
-    ok &= bool(bad)
+    tagged += [dict(rec, tag="record:" + name, part="rec") for name, rec in variants.items()]
+    pool = _Verdicts(JUDGED + ("tag",), CLAUSE_ORDER)
+    pool.add(tagged)
+    bytag = {}
+    for rec, clauses, mult in pool.decide(ctx, "selftest"):
+        key = str(clauses) if rec["part"] == "rec" else rec["part"]
+        bytag.setdefault(rec["tag"], {})
+        bytag[rec["tag"]][key] = bytag[rec["tag"]].get(key, 0) + mult
+    ok = True
+    base = bytag.get("baseline", {})
+    print("selftest C45 baseline (unmutated code, %d calls): rejected %s -> %s"
+          % (len(items) + len(fp_items) + len(qcases), base, "ok" if not base else "UNEXPECTED"))
+    ok &= not base
+    for name, _t, _a, _m, _w in mutants:
+        got = bytag.get(name, {})
+        print("selftest C45 mutant [%s]: rejected records %s -> %s" % (name, got, "DETECTED" if got else "MISSED"))
+        ok &= bool(got)
+    acc = "record:genuine" not in bytag
+    print("selftest C45 trace: genuine record accepted -> %s" % ("ok" if acc else "UNEXPECTED %s" % bytag.get("record:genuine")))
+    ok &= acc
+    for name in list(variants)[1:]:
+        got = bytag.get("record:" + name)
+        print("selftest C45 corrupted record [%s]: %s" % (name, "REJECTED %s" % list(got) if got else "ACCEPTED (missed)"))
+        ok &= bool(got)
     print("selftest C45: %s" % ("all binding demonstrations hold" if ok else "FAILED"))
     return 0 if ok else 1
 
